@@ -34,10 +34,34 @@ def apply_edit(src_root, seed, dst):
     return True
 
 
+def apply_patch(src_root, seed, dst):
+    shutil.copytree(os.path.join(src_root, "pyvaporation"), os.path.join(dst, "pyvaporation"), ignore=shutil.ignore_patterns("__pycache__"))
+    r = subprocess.run(["patch", "-p1", "-s", "-d", dst, "-i", seed["patch"], "--no-backup-if-mismatch"], capture_output=True, text=True)
+    return r.returncode == 0
+
+
+def agent_seeds(pid):
+    """Changes written by independent sub-agents against the property text alone and confirmed by hand (see /verif/seeded)."""
+    root = os.path.join(os.path.dirname(HERE), "seeded")
+    out = []
+    if os.path.isdir(root):
+        for d in sorted(os.listdir(root)):
+            mp, pp = os.path.join(root, d, "meta.json"), os.path.join(root, d, "patch.diff")
+            if os.path.exists(mp) and os.path.exists(pp):
+                try:
+                    m = json.load(open(mp))
+                except ValueError:
+                    continue
+                if m.get("property") == pid:
+                    out.append({"id": "agent:" + d, "props": [pid], "patch": pp})
+    return out
+
+
 def judge(pid, seed, src_root):
     d = tempfile.mkdtemp(prefix="vsv_")
     try:
-        if not apply_edit(src_root, seed, d):
+        ok = apply_patch(src_root, seed, d) if "patch" in seed else apply_edit(src_root, seed, d)
+        if not ok:
             return seed["id"], "skipped (anchor text not in this tree)", None
         env = dict(os.environ, VERIF_REPO=d, VERIF_EVIDENCE_DIR=os.path.join(d, "evidence"), VERIF_TIER="quick")
         p = subprocess.run([sys.executable, os.path.join(HERE, "check.py"), pid, "--tier", "quick"], env=env, capture_output=True, text=True, timeout=600)
@@ -49,7 +73,7 @@ def judge(pid, seed, src_root):
 
 def run_for(ck, pid):
     src = repo_root()
-    seeds = [s for s in SEEDS if pid in s["props"]]
+    seeds = [s for s in SEEDS if pid in s["props"]] + agent_seeds(pid)
     jobs = [(pid, s, src) for s in seeds] + [(pid, r, src) for r in REWRITES]
     with ThreadPoolExecutor(max_workers=int(os.environ.get("VERIF_JOBS", "16"))) as ex:
         res = list(ex.map(lambda a: judge(*a), jobs))
